@@ -12,6 +12,7 @@ import time
 from asyncio import Future, ensure_future, gather, iscoroutine, sleep
 from binascii import hexlify, unhexlify
 from collections import Counter, defaultdict
+from struct import error as struct_error
 from struct import pack
 from traceback import format_exception
 from typing import TYPE_CHECKING, cast
@@ -655,25 +656,31 @@ class TunnelCommunity(Community):
         self.logger.info("Added hop %d (%s) to circuit %d", len(circuit.hops), hop.peer, circuit.circuit_id)
 
         if circuit.state == CIRCUIT_STATE_EXTENDING:
-            candidates_enc = payload.candidates_enc
-            candidates_bin = session_keys.decrypt_str(candidates_enc, FORWARD)
-            candidates, _ = self.serializer.unpack("varlenH-list", candidates_bin)
-            candidates = cast("list[object]", candidates)
-
-            relay_candidates = candidates
-            exit_candidates = []
-            for i in range(len(candidates) - 1):
-                if candidates[i] == candidates[i+1]:
-                    relay_candidates = candidates[:i]
-                    exit_candidates = candidates[i+1:]
-                    break
-
-            become_exit = circuit.goal_hops - 1 == len(circuit.hops)
-            # If there aren't enough relays, we'll extend to exits. We currently assume that exits also allow relaying.
-            candidates = exit_candidates if become_exit else relay_candidates or exit_candidates
-
+            # This hop has been answered: its retry cache must not outlive a failure below. It would repeat the request
+            # for the position we just filled (appending a second "first" hop, or extending with stale candidates).
             cache = self.request_cache.pop(RetryRequestCache, circuit.circuit_id)
-            self.send_extend(circuit, cast("list[bytes]", candidates), cache.max_tries if cache else 1)
+            try:
+                candidates_enc = payload.candidates_enc
+                candidates_bin = session_keys.decrypt_str(candidates_enc, FORWARD)
+                candidates, _ = self.serializer.unpack("varlenH-list", candidates_bin)
+                candidates = cast("list[object]", candidates)
+
+                relay_candidates = candidates
+                exit_candidates = []
+                for i in range(len(candidates) - 1):
+                    if candidates[i] == candidates[i+1]:
+                        relay_candidates = candidates[:i]
+                        exit_candidates = candidates[i+1:]
+                        break
+
+                become_exit = circuit.goal_hops - 1 == len(circuit.hops)
+                # If there aren't enough relays, we'll extend to exits. We currently assume that exits also allow
+                # relaying.
+                candidates = exit_candidates if become_exit else relay_candidates or exit_candidates
+
+                self.send_extend(circuit, cast("list[bytes]", candidates), cache.max_tries if cache else 1)
+            except (ValueError, RuntimeError, struct_error):
+                self.remove_circuit(circuit.circuit_id, "error while processing the candidate list of the new hop")
 
         elif circuit.state == CIRCUIT_STATE_READY:
             self.request_cache.pop(RetryRequestCache, circuit.circuit_id)
